@@ -3,13 +3,20 @@
 package main
 
 import (
+	"bytes"
+	"context"
 	"encoding/json"
 	"fmt"
 	"math"
 	"strconv"
+	"strings"
 	"time"
 
+	"github.com/docker/cli/cli/command"
+	"github.com/docker/docker/client"
+
 	"github.com/tdakkota/docker-logql/internal/lokiapi"
+	"github.com/tdakkota/docker-logql/internal/zzverif/fakedocker"
 	"github.com/tdakkota/docker-logql/internal/zzverif/vkit"
 )
 
@@ -32,6 +39,7 @@ type c16Obs struct {
 	StartNS  int64  `json:"start_ns"`
 	EndNS    int64  `json:"end_ns"`
 	StepNS   int64  `json:"step_ns"`
+	FlagErr  string `json:"flag_err,omitempty"`
 	RangeErr string `json:"range_err,omitempty"`
 	StepErr  string `json:"step_err,omitempty"`
 	Panic    string `json:"panic,omitempty"`
@@ -43,22 +51,27 @@ func c16Exec(in c16Input) (o c16Obs) {
 			o.Panic = fmt.Sprint(p)
 		}
 	}()
-	var (
-		sp, ep lokiapi.OptLokiTime
-		si, st lokiapi.OptPrometheusDuration
-	)
-	if in.Start != nil {
-		sp.SetTo(lokiapi.LokiTime(*in.Start))
+	// The values travel the way the command line delivers them: through the flag set of the real command
+	// (pflag parsing, APIFlag.Set), then into parseTimeRange / parseStep as RunE passes them.
+	cmd := queryCmd(nil)
+	fs := cmd.Flags()
+	var args []string
+	for _, f := range []struct {
+		name string
+		v    *string
+	}{{"start", in.Start}, {"end", in.End}, {"since", in.Since}, {"step", in.Step}} {
+		if f.v != nil {
+			args = append(args, "--"+f.name+"="+*f.v)
+		}
 	}
-	if in.End != nil {
-		ep.SetTo(lokiapi.LokiTime(*in.End))
+	if err := fs.Parse(args); err != nil {
+		o.FlagErr = err.Error()
+		return o
 	}
-	if in.Since != nil {
-		si.SetTo(lokiapi.PrometheusDuration(*in.Since))
-	}
-	if in.Step != nil {
-		st.SetTo(lokiapi.PrometheusDuration(*in.Step))
-	}
+	sp := *fs.Lookup("start").Value.(*APIFlag[*lokiapi.OptLokiTime, lokiapi.LokiTime]).Val
+	ep := *fs.Lookup("end").Value.(*APIFlag[*lokiapi.OptLokiTime, lokiapi.LokiTime]).Val
+	si := *fs.Lookup("since").Value.(*APIFlag[*lokiapi.OptPrometheusDuration, lokiapi.PrometheusDuration]).Val
+	st := *fs.Lookup("step").Value.(*APIFlag[*lokiapi.OptPrometheusDuration, lokiapi.PrometheusDuration]).Val
 	start, end, err := parseTimeRange(time.Unix(0, in.Now), sp, ep, si)
 	if err != nil {
 		o.RangeErr = err.Error()
@@ -90,6 +103,12 @@ func c16Check(r *vkit.Run, in c16Input) {
 	}
 	if obs.Panic != "" {
 		fail("panic: "+obs.Panic, "")
+		return
+	}
+	if obs.FlagErr != "" {
+		if in.Malformed == "" {
+			fail("well-formed flags rejected by the flag set: "+obs.FlagErr, "")
+		}
 		return
 	}
 	switch in.Malformed {
@@ -317,10 +336,139 @@ func c16Run(r *vkit.Run) {
 		one(c16Input{Now: now, Start: sp("1700000000"), End: sp("1700003600"), WantStartNS: ip(1700000000 * 1e9), WantEndNS: ip(1700003600 * 1e9), Step: sp(bad), Malformed: "step"}, true)
 	}
 	r.GlobalState("malformed")
-	r.Note("bounds", fmt.Sprintf("instants: every %d s between 2001 and 2200 plus +-3 s around digit-length and 32-bit boundaries, in 5 spellings, as --start and as --end; all 1000 ms fractions of 3 base seconds in 4 spellings; 12 spans x 4 clocks x 16 flag subsets x 5 since x 8 step spellings; 11+9 malformed spellings per flag; 10 non-positive steps", stride))
+	c16E2ERun(r, func(fn func(), nontrivial bool) {
+		idx++
+		if !r.Mine(idx) || r.Stop() {
+			return
+		}
+		fn()
+		if nontrivial {
+			r.NonTrivial()
+		}
+	})
+	r.Note("bounds", fmt.Sprintf("instants: every %d s between 2001 and 2200 plus +-3 s around digit-length and 32-bit boundaries, in 5 spellings, as --start and as --end; all 1000 ms fractions of 3 base seconds in 4 spellings; 12 spans x 4 clocks x 16 flag subsets x 5 since x 8 step spellings; 11+9 malformed spellings per flag; 10 non-positive steps; every value travels through the command's own flag set (pflag parsing, APIFlag.Set); end to end (argv -> request sent to the fake daemon and printed records): 2 starts x 3 spans x all spelling pairs x 2 argv forms, and --end with --since", stride))
+}
+
+// ---- end to end: the command itself, from argv to the request sent to the daemon ----
+
+// c16CLI is a command.Cli whose only usable method is Client.
+type c16CLI struct {
+	command.Cli
+	c client.APIClient
+}
+
+func (c c16CLI) Client() client.APIClient { return c.c }
+
+type c16E2EInput struct {
+	Args      []string `json:"args"`
+	StartSec  int64    `json:"start_s"`
+	EndSec    int64    `json:"end_s"`
+	WantLines []string `json:"want_lines"`
+}
+
+type c16E2EObs struct {
+	Err   string   `json:"err,omitempty"`
+	Since string   `json:"since"`
+	Until string   `json:"until"`
+	Lines []string `json:"lines"`
+	Panic string   `json:"panic,omitempty"`
+}
+
+// c16E2ERecords: three records inside the window (not on its edges). The fake daemon does not filter by
+// since/until, and whether the engine drops records outside the window is no part of C16, so there are none.
+func c16E2ERecords(startSec, endSec int64) (recs []fakedocker.Rec, inside []string) {
+	mid := startSec + (endSec-startSec)/2
+	for i, ts := range []int64{startSec + 1, mid, endSec - 1} {
+		msg := fmt.Sprintf("m%d", i)
+		recs = append(recs, fakedocker.Rec{Stream: 1, TS: fakedocker.TS(ts * 1e9), Msg: msg})
+		inside = append(inside, msg)
+	}
+	return recs, inside
+}
+
+func c16E2EExec(in c16E2EInput) (o c16E2EObs) {
+	defer func() {
+		if p := recover(); p != nil {
+			o.Panic = fmt.Sprint(p)
+		}
+	}()
+	recs, _ := c16E2ERecords(in.StartSec, in.EndSec)
+	fake := fakedocker.New([]fakedocker.Container{{ID: "id0", Name: "/n0", Image: "img", State: "running", Log: fakedocker.Encode(recs)}})
+	cmd := queryCmd(c16CLI{c: fake})
+	var out bytes.Buffer
+	cmd.SetOut(&out)
+	cmd.SetErr(&bytes.Buffer{})
+	cmd.SilenceUsage, cmd.SilenceErrors = true, true
+	cmd.SetArgs(append(append([]string{}, in.Args...), "--color=false", "--timestamp=false", "--container=false", `{container="n0"}`))
+	if err := cmd.ExecuteContext(context.Background()); err != nil {
+		o.Err = err.Error()
+		return o
+	}
+	if len(fake.Calls) > 0 {
+		o.Since, o.Until = fake.Calls[0].Options.Since, fake.Calls[0].Options.Until
+	}
+	if t := strings.TrimSuffix(out.String(), "\n"); t != "" {
+		o.Lines = strings.Split(t, "\n")
+	}
+	return o
+}
+
+func c16E2ECheck(r *vkit.Run, in c16E2EInput) {
+	r.Begin("C16/e2e", in)
+	obs := c16E2EExec(in)
+	r.Eval()
+	r.Step(1)
+	fail := func(why string) { r.Fail("C16/e2e", in, nil, obs, in.WantLines, why, "") }
+	switch {
+	case obs.Panic != "":
+		fail("panic: " + obs.Panic)
+	case obs.Err != "":
+		fail("the command rejects well-formed flags: " + obs.Err)
+	case obs.Since != strconv.FormatInt(in.StartSec, 10) || obs.Until != strconv.FormatInt(in.EndSec, 10):
+		fail(fmt.Sprintf("the daemon is asked for since=%q until=%q, the flags denote [%d, %d]", obs.Since, obs.Until, in.StartSec, in.EndSec))
+	case strings.Join(obs.Lines, "|") != strings.Join(in.WantLines, "|"):
+		fail("the command prints other records than those inside the window the flags denote")
+	}
+}
+
+func c16E2ERun(r *vkit.Run, one func(fn func(), nontrivial bool)) {
+	// explicit --start and --end in every spelling pair; --end with --since; all in the past, so the
+	// wall clock (which RunE reads itself) has no influence on the expected window
+	for _, startSec := range []int64{999999990, 1700000000} {
+		for _, span := range []int64{10, 3600, 90000} {
+			endSec := startSec + span
+			_, inside := c16E2ERecords(startSec, endSec)
+			for _, st := range c16Spellings(startSec * 1e9) {
+				for _, en := range c16Spellings(endSec * 1e9) {
+					for _, form := range []string{"=", " "} {
+						args := []string{"--start=" + st, "--end=" + en}
+						if form == " " {
+							args = []string{"--end", en, "--start", st}
+						}
+						in := c16E2EInput{Args: args, StartSec: startSec, EndSec: endSec, WantLines: inside}
+						one(func() { c16E2ECheck(r, in) }, true)
+					}
+				}
+			}
+			for _, en := range c16Spellings(endSec * 1e9) {
+				for _, si := range []string{fmt.Sprintf("%ds", span), fmt.Sprintf("%dms", span*1000)} {
+					in := c16E2EInput{Args: []string{"--since=" + si, "--end=" + en, "--step=15s"}, StartSec: startSec, EndSec: endSec, WantLines: inside}
+					one(func() { c16E2ECheck(r, in) }, true)
+				}
+			}
+		}
+	}
+	r.GlobalState("end-to-end")
 }
 
 func c16Replay(r *vkit.Run, v vkit.Violation) *vkit.Violation {
+	if v.Check == "C16/e2e" {
+		var in c16E2EInput
+		if err := json.Unmarshal(v.Input, &in); err != nil {
+			r.HarnessError("bad input: %v", err)
+		}
+		return vkit.ReplayOne(r, func() { c16E2ECheck(r, in) })
+	}
 	var in c16Input
 	if err := json.Unmarshal(v.Input, &in); err != nil {
 		r.HarnessError("bad input: %v", err)
